@@ -22,7 +22,7 @@ for id in sorted(os.listdir('/verif/seeded')):
         needs = ' '.join(m.group(2).split())[:900]
     files = sorted(set(re.findall(r'^\+\+\+ b/(\S+)', open(d + '/patch.diff').read(), re.M)))
     race = id in ('C13-2',)
-    demotags = {'C20-7': 'ark_tiny', 'C20-8': 'ark_debug'}.get(id)
+    demotags = {'C20-7': 'ark_tiny', 'C20-8': 'ark_debug', 'C20-10': 'ark_debug'}.get(id)
     meta = {
         "id": id,
         "breaks_property": prop,
@@ -52,6 +52,9 @@ for id in sorted(os.listdir('/verif/seeded')):
         r4 = json.load(open('/verif/records/round4_breaking_first_pass.json'))['first_pass']
         for k4, v4 in r4.items():
             fp[k4] = dict(v4, round=4)
+        r5 = json.load(open('/verif/records/round5_breaking_first_pass.json'))['first_pass']
+        for k5, v5 in r5.items():
+            fp[k5] = dict(v5, round=5)
     except Exception:
         fp = {}
     if id in fp:
